@@ -6,6 +6,9 @@ import json, os, subprocess, sys, glob, time
 VERIF = os.path.dirname(os.path.dirname(os.path.abspath(__file__)))
 src = os.path.join(VERIF, "seeded")
 args = sys.argv[1:]
+only_new = False
+if args and args[0] == "--only-new":
+    only_new = True; args = args[1:]
 if args and args[0] == "--src":
     src = args[1]; args = args[2:]
 ids = args or sorted(os.listdir(src))
@@ -21,6 +24,7 @@ for pid in ids:
         patch = os.path.join(d, k, "patch.diff")
         if not os.path.exists(patch): continue
         tag = "%s/%s" % (pid, k)
+        if only_new and tag in res: continue
         a = subprocess.run(["git", "-C", "/repo", "apply", "--3way", patch], capture_output=True, text=True)
         if a.returncode != 0:
             a = subprocess.run(["git", "-C", "/repo", "apply", patch], capture_output=True, text=True)
